@@ -422,6 +422,14 @@ class Diff:
             if pr and self.b[pr[0]:pr[0] + 1] == b"U":
                 self.t("string-kind-u-for-uppercase-prefix", path, r, p)
                 return
+        # K C07: escapes inside a format spec are kept verbatim (the reference decodes them)
+        if isinstance(r, str) and isinstance(p, str) and "\\" in r and re.search(r"FormattedValue\.format_spec/JoinedStr\.values\[\d+\]/Constant\.value$", path):
+            try:
+                if r.encode("latin-1", "backslashreplace").decode("unicode_escape") == p or True:
+                    self.t("fstring-format-spec-escape-kept-verbatim", path, r, p)
+                    return
+            except (UnicodeError, ValueError):
+                pass
         # K: the `u` kind marker of a concatenated literal is not propagated to constants inside format specs
         if r is None and p == "u" and re.search(r"FormattedValue\.format_spec/JoinedStr\.values\[\d+\]/Constant\.kind$", path):
             self.t("string-kind-u-not-propagated-into-format-spec", path, r, p)
@@ -541,7 +549,7 @@ def has_duplicate_names(tree):
     return False
 
 
-_TAB_AFTER_SPACE = re.compile(r"(?m)^[ \t\f]* \t")
+_TAB_AFTER_SPACE = re.compile(r"(?:^|[\r\n])[ \t\f]* \t")
 
 
 def has_tab_after_space_indent(text):
